@@ -9,6 +9,7 @@ import EqlModel.Cache
 import EqlModel.Lemmas.CacheDefs
 import EqlModel.Mode
 import EqlModel.Registry
+import EqlModel.ForAll
 
 open Eql Eql.Sexp
 
@@ -64,6 +65,15 @@ def runQuery (args : List Sexp) : Option String := do
     match vars.find? (·.1 == v) with
     | some (_, cls, raw) => mkDom W cls raw
     | none => []
+  -- for_all(u, c), optionally under an outer conjunct: `(forall u c...)`
+  match field? "forall" args with
+  | some (uv :: fc :: fcs) =>
+      let u ← uv.nat?
+      let fcond := chain SCond.and2 (← decSCond fc) (← fcs.mapM decSCond)
+      let rs := rowsForAll W D sel (sc.map build) u (build fcond)
+      let spec := specRowsForAll W D (vars.map (·.1)) sel sc u fcond
+      return s!"{id}\tR\t{renderRows rs}\tS\t{renderRows spec}\tB\t-"
+  | _ => pure ()
   let q : Query PVal := { sel := sel, cond := sc.map build }
   let spec := specRows W D (vars.map (·.1)) sel sc
   if quant == "the" then
